@@ -2,6 +2,7 @@ package cmd
 
 import (
 	"context"
+	"errors"
 	"fmt"
 	"os"
 	"path/filepath"
@@ -28,6 +29,11 @@ func readUserConfig(params configFileParams, searchPath string) (userConfig *os.
 		}
 
 		userConfig, err = config.FindConfig(searchPath)
+	}
+
+	// conflicting config files are not the same as no config: nothing else is tried in their place
+	if errors.Is(err, config.ErrConflictingConfigFiles) {
+		return nil, err //nolint:wrapcheck
 	}
 
 	// if there is no config found, attempt to load the user's global config if
